@@ -591,3 +591,20 @@ func (s *Session) AppsIn(a Scalar) []AppInfo {
 
 // Rat is the constant num/den.
 func (s *Session) Rat(r *big.Rat) Scalar { return Scalar{v: rfPoly(PolyConst(r))} }
+
+// traceMul (Ext) records a floating-point multiplication with its two operand values.
+func (f *frame) traceMul(a, b Scalar, operandT types.Type, at ssa.Value) {
+	if !isFloatType(operandT) {
+		return
+	}
+	if _, ca := a.v.Const(); ca {
+		if _, cb := b.v.Const(); cb {
+			return
+		}
+	}
+	pos := token.NoPos
+	if at != nil {
+		pos = at.Pos()
+	}
+	f.r.events = append(f.r.events, Event{Kind: EvMul, Args: []Val{a, b}, Loop: f.r.curLoop(), Pos: pos, In: f.fn})
+}
